@@ -25,16 +25,6 @@ Definition no_report (extra : str) : Prop :=
     is_csi csi -> digits rs = true -> digits cs = true ->
     extra <> pre ++ report csi rs cs ++ post.
 
-(* ---- the decimal rendering of a number (for "every row, col >= 1") ----------- *)
-Fixpoint pos_digits_fuel (fuel : nat) (n : N) (acc : str) : str :=
-  match fuel with
-  | O => acc
-  | S f => let acc' := (48 + n mod 10) :: acc in
-           if n / 10 =? 0 then acc' else pos_digits_fuel f (n / 10) acc'
-  end.
-(* N.size_nat n binary digits are at least as many as decimal digits *)
-Definition decimal (n : N) : str := pos_digits_fuel (S (N.size_nat n)) n [].
-
 (* ---- streams ----------------------------------------------------------------- *)
 (* the characters a reader obtains from a stream: failed reads deliver nothing *)
 Fixpoint chars_of (s : list item) : str :=
